@@ -232,6 +232,12 @@ func specOf(ops []op) (int, int, hdr, string) {
 		case "writeheader":
 			setStatus(o.C)
 			freeze()
+		case "ret":
+			// layered requests (layers.go): a layer returns. Every layer is a handler: a status that is
+			// pending when it returns is committed there, exactly as at the end of a single handler.
+			if !frozen && statusSet {
+				freeze()
+			}
 		}
 	}
 	if frozen {
@@ -324,9 +330,21 @@ func judge(c *vh.Ctx, cas map[string]any, ops []op, rw *vh.CountingRW, pan any) 
 type tcase struct {
 	Ops []op
 	At  int
+	Lay *layCase // layered stream (layers.go): Ops is then the event sequence in execution order, with "ret" marks
+}
+
+// line: the model question for this case; view "resp" (recorder) or "conn" (connection).
+func (t tcase) line(view string) string {
+	if t.Lay != nil {
+		return t.Lay.modelLine(view)
+	}
+	return view + strings.TrimPrefix(modelLine(t.Ops), "resp")
 }
 
 func (t tcase) cas(kind string) map[string]any {
+	if t.Lay != nil {
+		return t.Lay.cas()
+	}
 	if t.At >= 0 {
 		return map[string]any{"kind": "split", "at": t.At, "ops": t.Ops}
 	}
@@ -378,6 +396,7 @@ func nontrivial(ops []op) bool {
 		switch o.Kind {
 		case "status", "header", "cookie":
 			other = true
+		case "ret":
 		default:
 			commit = true
 		}
@@ -433,9 +452,14 @@ func runCases(c *vh.Ctx, m *vh.Model, pre []op, cases []tcase, every int) {
 		c.Mismatch(cases[0].cas("resp"), o.String(), "", "server script did not run")
 		return
 	}
+	serveCases(c, m, env, cases, every)
+}
+
+// serveCases: case i is served by route /c<i> of env.
+func serveCases(c *vh.Ctx, m *vh.Model, env *vh.HTTPEnv, cases []tcase, every int) {
 	var lines []string
 	for _, t := range cases {
-		lines = append(lines, modelLine(t.Ops))
+		lines = append(lines, t.line("resp"))
 	}
 	var mres []string
 	if m != nil {
@@ -458,10 +482,16 @@ func runCases(c *vh.Ctx, m *vh.Model, pre []op, cases []tcase, every int) {
 			key = fmt.Sprintf("split%d %s", t.At, key)
 			c.Hit("split:case")
 		}
+		if t.Lay != nil {
+			key = t.Lay.key()
+			t.Lay.hits(c)
+		}
 		c.Eval(key, nontrivial(ops))
 		c.HitN("len="+fmt.Sprint(len(ops)), 1)
 		for _, o := range ops {
-			c.Hit("op:" + o.Kind)
+			if o.Kind != "ret" {
+				c.Hit("op:" + o.Kind)
+			}
 		}
 		if st, _, _, _ := specOf(ops); noBodyStatus(st) {
 			c.Hit("committed:no-body-status")
@@ -527,7 +557,7 @@ func runClient(c *vh.Ctx, m *vh.Model, env *vh.HTTPEnv, cases []tcase, every int
 			continue
 		}
 		idx = append(idx, i)
-		lines = append(lines, "conn"+strings.TrimPrefix(modelLine(t.Ops), "resp"))
+		lines = append(lines, t.line("conn"))
 	}
 	var mres []string
 	if m != nil && len(lines) > 0 {
@@ -843,6 +873,8 @@ func Run(c *vh.Ctx) {
 			Ops     []op      `json:"ops"`
 			At      int       `json:"at"`
 			Entries []mwEntry `json:"entries"`
+			Mws     []layer   `json:"mws"`
+			Handler []op      `json:"handler"`
 		}
 		if err := json.Unmarshal(c.ReplayRaw, &rc); err != nil {
 			c.Note("bad replay: %v", err)
@@ -850,6 +882,8 @@ func Run(c *vh.Ctx) {
 		}
 		if rc.Kind == "mw" {
 			runMw(c, m, rc.Entries)
+		} else if rc.Kind == "layers" {
+			runLayerStack(c, m, rc.Mws, [][]op{rc.Handler})
 		} else if rc.Kind == "split" && rc.At >= 0 && rc.At <= len(rc.Ops) {
 			runSplit(c, m, rc.Ops[:rc.At], [][]op{rc.Ops[rc.At:]})
 		} else {
@@ -857,7 +891,7 @@ func Run(c *vh.Ctx) {
 		}
 		return
 	}
-	c.Res.Rule = "response: every sequence of operation kinds up to length L over the 11-kind alphabet (parameters drawn from small pools by the seeded PRNG; every status-carrying kind draws from body-allowing and no-body codes), plus seeded longer sequences; status-class stream: every sequence of 1..2 (thorough: 3) status-carrying operations over {status, writeHeader, redirect, noContent, html(b, code)} x one code per status class, followed by each body tail, and the same after a first write; layer-split stream: first operation in a middleware, the rest in the handler; non-trivial = contains a committing operation and at least one status/header/cookie operation; distinct = distinct concrete op sequence. middleware: every priority stack up to length 5 over {-1,0,1,5} (+ omitted priority, short-circuit and class-based variants seeded); non-trivial = at least 2 entries"
+	c.Res.Rule = "response: every sequence of operation kinds up to length L over the 11-kind alphabet (parameters drawn from small pools by the seeded PRNG; every status-carrying kind draws from body-allowing and no-body codes), plus seeded longer sequences; status-class stream: every sequence of 1..2 (thorough: 3) status-carrying operations over {status, writeHeader, redirect, noContent, html(b, code)} x one code per status class, followed by each body tail, and the same after a first write; layer-split stream: first operation in a middleware, the rest in the handler; layered stream: stacks of 0..2 (thorough: 3) closure / class middlewares over a route handler, every layer with an operation sequence before $next, calling $next or short-circuiting, and an operation sequence after it, judged by the commit-once reference read in execution order across the layers (the return of a layer with a status pending commits it); non-trivial = contains a committing operation and at least one status/header/cookie operation; distinct = distinct concrete op sequence. middleware: every priority stack up to length 5 over {-1,0,1,5} (+ omitted priority, short-circuit and class-based variants seeded); non-trivial = at least 2 entries"
 	maxLen := c.N(4, 5)
 	var batch [][]op
 	flush := func() {
@@ -897,8 +931,10 @@ func Run(c *vh.Ctx) {
 	for _, pre := range splitPrefixes(c.Thorough()) {
 		runSplit(c, m, []op{pre}, splitSuffixes(c.Thorough()))
 	}
+	// layered stream (layers.go)
+	layerStream(c, m)
 	c.Res.Exhaustive = true
-	c.Res.ExhaustiveWhat = fmt.Sprintf("all operation-kind sequences of length <= %d over 11 kinds; all status-class sequences (choosers %d, depth %d) x body tails, before and after a first write; all (middleware operation, handler suffix) splits of the depth-2 status-class sequences; all middleware priority stacks of length <= 5 over {-1,0,1,5}", maxLen, len(choosers(c.Thorough())), c.N(2, 3))
+	c.Res.ExhaustiveWhat = fmt.Sprintf("all operation-kind sequences of length <= %d over 11 kinds; all status-class sequences (choosers %d, depth %d) x body tails, before and after a first write; all (middleware operation, handler suffix) splits of the depth-2 status-class sequences; all layered requests of 0..%d middlewares (each: one of %d operation sequences before $next, calls $next or not, one of them after) over each of the route handlers, kinds (closure / class) and registration orders rotating; all middleware priority stacks of length <= 5 over {-1,0,1,5}", maxLen, len(choosers(c.Thorough())), c.N(2, 3), c.N(2, 3), len(layerSeqs(0, false)))
 	// seeded longer sequences
 	for i := 0; i < c.N(3000, 60000); i++ {
 		n := c.Rand.Range(maxLen+1, 12)
